@@ -20,6 +20,10 @@ Acts(s) ==
     \cup {[name |-> n, receiver |-> rc, token |-> t, amt |-> x, auth |-> au] :
         n \in {"CollectFees", "Refund"}, rc \in Receivers, t \in Real, x \in Amts,
         au \in {{"col0"}, {"owner0"}, {}}}
+    \* the sender of the message holds funds too (and, like the spender, a standing allowance toward the service):
+    \* the payment is taken from the named spender all the same
+    \cup {[name |-> n, sender |-> "bob", spender |-> "alice", token |-> t, amt |-> 1, auth |-> au] :
+            n \in {"PayGas", "AddGas"}, t \in Real, au \in {{"alice"}, {"bob"}}}
     \* "nv": a token that does not check the sign of an amount - the service itself must insist on a
     \* positive payment and on a non-negative collection
     \cup (IF "nv" \in Tokens
@@ -37,7 +41,7 @@ Next == \E a \in Acts(st) : st' = Apply(st, a).post
 C14_StepRules == \A a \in Acts(st) : StepRules(st, a, Apply(st, a))
 C14_NonNegative == NonNegative(st)
 
-Inst == [module |-> "GasService", Tokens |-> Tokens, Accts |-> Accts]
+Inst == [module |-> "GasService", Tokens |-> Tokens, Accts |-> Accts, Allowances |-> <<"alice", "bob">>]
 ASSUME PrintT(<<"INST", ToJson(Inst)>>)
 Dump ==
     LET acts == SetToSeq(Acts(st)) IN
